@@ -460,6 +460,67 @@ func ruleRetainNotifications(c *chk.Ctx) {
 		})
 	}
 	c.Check(found, "RUN.retain", stop, "notifications are the retained members", each.Pos(), "members are retained exactly on the true edge of the notification predicate", "no append governed by the notification predicate in the queue walk: valid notifications received before the stop would be lost")
+	// the loop over an entry's members that holds the retaining append visits every member: it is
+	// never left once a member's notification test has been made, i.e. from inside one member's
+	// handling (a break or return after a call would drop the notifications
+	// that follow it in the same batch)
+	for _, cb := range walkFns {
+		c.P.ExtInstrs(cb, func(ins ssa.Instruction) {
+			call, ok := ins.(*ssa.Call)
+			if !ok {
+				return
+			}
+			b, isB := call.Call.Value.(*ssa.Builtin)
+			if !isB || b.Name() != "append" {
+				return
+			}
+			var predBlocks []*ssa.BasicBlock
+			for _, cd := range ir.CondsAt(call.Block()) {
+				if truePred(cd, 0) {
+					predBlocks = append(predBlocks, cd.V.(*ssa.Call).Block())
+				}
+			}
+			if len(predBlocks) == 0 {
+				return
+			}
+			fn := call.Parent()
+			for _, hdr := range fn.Blocks {
+				in := ir.LoopBlocks(hdr)
+				if len(in) < 2 || !in[call.Block()] {
+					continue
+				}
+				back := false // a genuine loop header has a back edge from inside its loop
+				for _, p := range hdr.Preds {
+					if in[p] {
+						back = true
+					}
+				}
+				if !back {
+					continue
+				}
+				early := false
+				for x := range in {
+					for _, s := range x.Succs {
+						if in[s] {
+							continue
+						}
+						if len(s.Instrs) > 0 {
+							if _, isPanic := s.Instrs[len(s.Instrs)-1].(*ssa.Panic); isPanic {
+								continue
+							}
+						}
+						// leaving the loop once this member's notification test has been made
+						for _, pb := range predBlocks {
+							if in[pb] && (pb == x || pb.Dominates(x)) {
+								early = true
+							}
+						}
+					}
+				}
+				c.Check(!early, "RUN.retain", stop, "the member walk visits every member", call.Pos(), "the loop that retains notifications is left only by its own per-iteration test", "the loop over a queued batch can be left from inside one member's handling (break/return): notifications that follow that member in the same batch would be dropped at stop")
+			}
+		})
+	}
 	// every re-queued entry holds members of one original entry only: it is a one-element list, or
 	// a list accumulated inside a single invocation of the queue-walk callback. (Members of
 	// different inbound messages put into one entry would be dispatched as one batch, i.e.
